@@ -139,7 +139,39 @@ class Spec:
             out['cases'] += len(cases)
             if cases and len(out['samples']) < 3:
                 out['samples'].append({'stream': name, 'case': strip_case(cases[len(cases) // 2])})
+        self.engine_streams(ctx, out)
         return out
+
+    def engine_streams(self, ctx, out):
+        """The layers under every property, re-validated on every run: the regex engine of the model together with the
+        translator's reading of each pattern of the source (stream R: every generated pattern searched on generated
+        subjects, compared with CPython's re on the pattern text as the source has it), and the parser for author patterns
+        (stream P), and the library functions of the model one at a time against the interpreter and the rimu helpers
+        (stream F: str.lower / strip / replace, the escape, the reader, slugify, two content filters).  A disagreement is a
+        broken correspondence like any other; the subject is handed to the failing-input search as a document."""
+        import stream_regex as SR
+        seed = int(ctx.rng('engine').random() * 1e9)
+        for name, (lines, pyc), cmp_ in (('R', SR.stream_R(sizes(ctx, 6, 40), seed), SR.compare_R),
+                                         ('P', SR.stream_P(sizes(ctx, 150, 3000), seed), SR.compare_P),
+                                         ('F', SR.stream_F(sizes(ctx, 60, 1500), seed), SR.compare_F)):
+            mo = model_run(lines, timeout=60)
+            io_ = impl_run(pyc, timeout=10)
+            nd = 0
+            for c, m, i in zip(pyc, mo, io_):
+                r = cmp_(m, i or {})
+                if r == 'SKIP':
+                    out['skipped'] += 1
+                elif r:
+                    nd += 1
+                    if name == 'F':
+                        why = 'library function %s%r: %s' % (c['fn'], tuple(a[:60] for a in c['args']), r)
+                        text = c['args'][-1]
+                    else:
+                        why = 'regex engine / translator: pattern %s %r on %r: %s' % (c.get('name', ''), c['pat'][:80], c['text'][:80], r)
+                        text = c['text']
+                    out['disagreements'].append({'stream': name, 'why': why, 'case': H([call(text, reset=True, cb=True)])})
+            out['streams'][name] = {'cases': len(pyc), 'disagreements': nd}
+            out['cases'] += len(pyc)
 
     def run_oracle(self, ctx, cases):
         """cases may carry 'variants': further histories run alongside, whose results the oracle compares"""
